@@ -640,9 +640,9 @@ def wbkink_verdict(desc):
 
 
 SUBS = [
-    Sub("insitu_aero", aero_cfg(), verdict, quick=240, thorough=6000),
-    Sub("insitu_struct", struct_cfg("struct"), verdict, quick=128, thorough=3000),
-    Sub("insitu_aerostruct", struct_cfg("aerostruct"), verdict, quick=96, thorough=3000),
-    Sub("bespoke", bespoke_cfg(), bespoke_verdict, quick=480, thorough=12000),
+    Sub("insitu_aero", aero_cfg(), verdict, quick=240, thorough=2400),
+    Sub("insitu_struct", struct_cfg("struct"), verdict, quick=128, thorough=1280),
+    Sub("insitu_aerostruct", struct_cfg("aerostruct"), verdict, quick=96, thorough=960),
+    Sub("bespoke", bespoke_cfg(), bespoke_verdict, quick=480, thorough=4800),
     Sub("wingbox_flat_chord_probe", wbkink_cfg(), wbkink_verdict, quick=16, thorough=100, max_shards=4),
 ]
